@@ -103,7 +103,16 @@ def h12_sim(c, n=2):
 
 OUT = ["Betdaq execution (property: a successful update legitimately stays 'updating' until the next poll)", "packages of more than n orders",
        "thread schedules below handler granularity"]
+def h12_trade(c):
+    """a late response applied to a trade that completed meanwhile, the trade then re-used (C10 harness): no trade is left in its transient
+    pending state, whatever the outcome of the further order"""
+    from .c10 import h10e
+    from .c06 import _Only
+    h10e(_Only(c, ("trade-not-left-pending", "trade-complete<=>orders-complete", "no-exception", "order-accepted")))
+
+
 HARNESSES = [
+    Harness("H12-trade", h12_trade, pattern="P5 (late response on a completed trade) + P3", requires=["trade-reused", "all-complete"], outside=OUT, selfcheck=False),
     Harness("H12-live", h12_live, quick=dict(n=2), thorough=dict(n=3, kinds=[OrderPackageType.CANCEL, OrderPackageType.REPLACE]), pattern="P5 fault schedule as a variable",
             requires=["handled", "retries-exhausted", "completed-meanwhile", "timeout", "cancel-reports-misordered"], wall_s=(300, 3000), max_paths=(300000, 3000000), outside=OUT),
     Harness("H12-sim", h12_sim, quick=dict(n=2), thorough=dict(n=3), pattern="P5 fault schedule as a variable", requires=["handled", "completed-meanwhile", "replacement"],
